@@ -238,7 +238,7 @@ def run(ctx: Ctx) -> None:
         "the number of result entries is only checked from below (inferred / docstring results are C07's business)",
         "each reference is counted from the top-level entries; the inline constructor copy inside a class entry counts once for the constructor's id",
     ]
-    failures = engine.search(ctx, MOD, shards=ctx.n(16, 96), examples=ctx.n(12, 50))
+    failures = engine.search(ctx, MOD, shards=ctx.n(16, 96), examples=ctx.n(24, 50))
     engine.report_failures(ctx, MOD, failures)
     engine.replay_known(ctx, MOD)
 
